@@ -208,7 +208,7 @@ func cmdCheck(args []string) int {
 	var mine []*Obligation
 	for _, ob := range x.obls {
 		if len(ob.Tags) == 0 || hasTag(ob.Tags, *prop) {
-			if len(pc.Kinds) > 0 && ob.Kind != "cover" {
+			if len(pc.Kinds) > 0 && !strings.HasPrefix(ob.Kind, "cover") {
 				// a kind-restricted property takes only obligations explicitly tagged with it
 				keep := false
 				if !hasTag(ob.Tags, *prop) {
@@ -232,7 +232,33 @@ func cmdCheck(args []string) int {
 	}
 	qdir := filepath.Join(os.TempDir(), fmt.Sprintf("gverif-%s-%d", *prop, os.Getpid()))
 	ts := time.Now()
-	solveAll(x.ctx, mine, qdir, timeout, 8, *tier == "thorough")
+	// call-site vacuity queries: the "reachable before the call" half is only needed (and only
+	// solved) for call sites whose "reachable after the call" half comes back unsat
+	var first, lazyPre []*Obligation
+	for _, ob := range mine {
+		if ob.Kind == "cover-call-pre" {
+			ob.Result = "skipped"
+			lazyPre = append(lazyPre, ob)
+		} else {
+			first = append(first, ob)
+		}
+	}
+	solveAll(x.ctx, first, qdir, timeout, 8, *tier == "thorough")
+	var needPre []*Obligation
+	for _, ob := range first {
+		if ob.Kind == "cover-call-post" && ob.Result == "unsat" {
+			k := strings.Replace(ob.Name, "#cover-call-post:", "#cover-call-pre:", 1)
+			for _, p := range lazyPre {
+				if p.Name == k && p.Result == "skipped" {
+					p.Result = ""
+					needPre = append(needPre, p)
+				}
+			}
+		}
+	}
+	if len(needPre) > 0 {
+		solveAll(x.ctx, needPre, filepath.Join(qdir, "pre"), timeout, 8, false)
+	}
 	solveS := time.Since(ts).Seconds()
 	if !*keep {
 		defer os.RemoveAll(qdir)
@@ -249,7 +275,26 @@ func cmdCheck(args []string) int {
 	coverSat := map[string]bool{}
 	coverAll := map[string]bool{}
 	var deadPaths []string
-	for i, ob := range mine {
+	// call-site vacuity: reachable before an assumed contract is applied, unreachable after
+	callPre := map[string]string{}
+	for _, ob := range mine {
+		if ob.Kind == "cover-call-pre" {
+			callPre[strings.Replace(ob.Name, "#cover-call-pre:", "#", 1)] = ob.Result
+		}
+	}
+	var contradictory []string
+	for _, ob := range mine {
+		if ob.Kind == "cover-call-post" && ob.Result == "unsat" {
+			k := strings.Replace(ob.Name, "#cover-call-post:", "#", 1)
+			if pre := callPre[k]; pre == "sat" || pre == "unknown" || pre == "timeout" {
+				contradictory = append(contradictory, ob.Fn+"#contract-consistent:"+ob.Desc)
+			}
+		}
+	}
+	for _, ob := range mine {
+		if strings.HasPrefix(ob.Kind, "cover-call") {
+			continue
+		}
 		if ob.Kind == "cover" {
 			coverAll[ob.Fn] = true
 			if ob.Result == "unsat" {
@@ -270,7 +315,7 @@ func cmdCheck(args []string) int {
 		g.obs = append(g.obs, ob)
 		if ob.Result != "unsat" {
 			g.bad = append(g.bad, ob)
-			g.qfiles = append(g.qfiles, filepath.Join(qdir, fmt.Sprintf("q%05d.smt2", i)))
+			g.qfiles = append(g.qfiles, ob.File)
 		}
 	}
 	sort.Strings(gnames)
@@ -373,6 +418,14 @@ func cmdCheck(args []string) int {
 		}
 		os.WriteFile(rf, []byte(sb.String()), 0o644)
 		fmt.Printf("VIOLATION property=%s replay=%s obligation=%s result=%s%s\n", *prop, rf, n, b.Result, suffix)
+	}
+	sort.Strings(contradictory)
+	for _, cname := range contradictory {
+		violations++
+		os.MkdirAll(replayDir, 0o755)
+		rf := filepath.Join(replayDir, mangle(cname)+".txt")
+		os.WriteFile(rf, []byte("failed obligation: "+cname+"\nproperty: "+*prop+"\nthe ASSUMED contract of the callee is contradictory at this call site: the path is reachable before the call and unreachable after it, so everything after the call would be proved vacuously.\n"), 0o644)
+		fmt.Printf("VIOLATION property=%s replay=%s obligation=%s result=vacuous no-failing-input-found\n", *prop, rf, cname)
 	}
 	for _, u := range undecidedContract {
 		violations++
